@@ -36,6 +36,14 @@ class Limit(Exception):
     pass
 
 
+class _Nothing:
+    """what a call yields when the function ended with a bare `return;`: an *untyped* null.  The manual says the declared return
+    type "imposes no constraints at runtime"; the only place where the missing type is observable in G_model is a direct
+    assignment to a type-constrained variable (the control variable of an active for/forall), which is refused at run time."""
+    def __repr__(self): return "NOTHING"
+NOTHING = _Nothing()
+
+
 class Interp:
     def __init__(self, funcs, maxsteps=6000):
         self.funcs = {(f["name"], len(f["params"])): f for f in funcs}
@@ -61,6 +69,10 @@ class Interp:
 
     # -- expressions
     def ev(self, e, env):
+        v = self._ev(e, env)
+        return None if v is NOTHING else v
+
+    def _ev(self, e, env):
         k = e[0]
         if k == "int": return e[1]
         if k == "bool": return e[1]
@@ -176,7 +188,11 @@ class Interp:
             raise Limit()
         k = s[0]
         if k == "assign":
-            v = self.ev(s[2], env)
+            v = self._ev(s[2], env) if s[2][0] == "call" else self.ev(s[2], env)
+            if v is NOTHING:
+                if s[1] in env.get("\0alias", {}) or s[1] in env.get("\0forvars", ()):
+                    raise BlocError("fatal", "ANY")      # untyped null into a type-constrained control variable
+                v = None
             self.wr(env, s[1], list(v) if isinstance(v, list) else v)
         elif k == "print":
             vals = [self.ev(e, env) for e in s[2]]
@@ -208,19 +224,24 @@ class Interp:
             lo, hi = min(a, b), max(a, b)
             down = (a > b) if direction is None else (direction == "desc")
             cur = a
-            while True:
-                env[var] = cur
-                try:
-                    self.block(body, env)
-                except _Break:
-                    break
-                except _Continue:
-                    pass
-                cur = env[var]          # the body may assign the control variable
-                nxt = cur - st if down else cur + st      # unbounded integers: the variable never wraps
-                if nxt < lo or nxt > hi:
-                    break
-                cur = nxt
+            forvars = env.setdefault("\0forvars", [])
+            forvars.append(var)
+            try:
+                while True:
+                    env[var] = cur
+                    try:
+                        self.block(body, env)
+                    except _Break:
+                        break
+                    except _Continue:
+                        pass
+                    cur = env[var]          # the body may assign the control variable
+                    nxt = cur - st if down else cur + st      # unbounded integers: the variable never wraps
+                    if nxt < lo or nxt > hi:
+                        break
+                    cur = nxt
+            finally:
+                forvars.pop()
         elif k == "forall":
             _, var, tname, direction, body = s
             t = env.get(tname)
@@ -263,7 +284,8 @@ class Interp:
         elif k == "break": raise _Break()
         elif k == "continue": raise _Continue()
         elif k == "return":
-            raise _Return(None if s[1] is None else self.ev(s[1], env))
+            if s[1] is None: raise _Return(NOTHING)
+            raise _Return(self._ev(s[1], env) if s[1][0] == "call" else self.ev(s[1], env))
         elif k == "do":
             self.ev(s[1], env)
         elif k == "put":     # t.put(i, v)
@@ -288,7 +310,7 @@ class Interp:
             self.block(prog, env)
             return ("ok", None)
         except _Return as r:
-            return ("returned", r.v)
+            return ("returned", None if r.v is NOTHING else r.v)
         except BlocError as e:
             return ("error", e.name)
         except (_Break, _Continue):
